@@ -269,6 +269,31 @@ def lg_record_validate(prop, tier, seed, res, n, checks, exe=None, label="lg"):
     return files
 
 
+def skipper_mc(res, tier):
+    """Skipper.tla: the bit-parallel per-block formulation (as the code computes it) against the scalar reference, exhaustively at small block sizes"""
+    d = wdir("beh")
+    configs = [(4, 7)] if tier == QUICK else [(4, 9), (2, 8)]
+    for B, maxlen in configs:
+        stats_p = os.path.join(d, "skipper_%d_%d.stats" % (B, maxlen))
+        src = [os.path.join(vlib.TLA, f) for f in ("Skipper.tla", "MC_Skipper.tla", "MC_Skipper.cfg")]
+        stamp = "".join(str(os.path.getmtime(f)) for f in src)
+        st = None
+        if os.path.exists(stats_p):
+            st = json.load(open(stats_p))
+            if st.get("stamp") != stamp:
+                st = None
+            else:
+                st["reused_from_cache"] = True
+        if st is None:
+            st = tlc_mc("MC_Skipper", {"B": B, "MaxLen": maxlen}, tag="MC_Skipper_%d_%d" % (B, maxlen), workers=8)
+            st["stamp"] = stamp
+            st.pop("log_tail", None)
+            json.dump(st, open(stats_p, "w"))
+        res.coverage["states"] += st["distinct"]
+        res.coverage["transitions"] += st["states"]
+        res.coverage.setdefault("tlc", {})["MC_Skipper_B%d_len%d" % (B, maxlen)] = {k: st[k] for k in st if k in ("states", "distinct", "seconds", "reused_from_cache")}
+
+
 def lg_beh_validate(prop, tier, seed, res, checks, phase=0, only_value=False):
     """exhaustive small scope for the lazy APIs: the texts explored by MC_JsonText (well-formed and malformed) x candidate paths
     through get / get_many / iterators, validated by Trace_LazyGet.  quick: a stride sample of about 2500 texts; thorough: about 100000"""
@@ -317,6 +342,10 @@ def check_C10(tier, seed):
                             "Lookup(Denotes(bytes), path) (first member wins) and compares Ok/Err, the returned span by byte offsets, and the error category")
     lg_record_validate("C10", tier, seed, res, 12000 if tier == QUICK else 300000, ("c10", "panic"))
     lg_beh_validate("C10", tier, seed, res, ("c10", "panic"), phase=0, only_value=True)
+    # the bitmap container skipper behind get_unchecked / lazy iteration: model (bit-parallel = scalar reference at small block sizes)
+    # and the real per-block step at block size 64 (hook) replayed through the specification
+    skipper_mc(res, tier)
+    generic_record_validate("C10", res, "sk-record", ["--seed", seed, "--n", 2500 if tier == QUICK else 120000], "Trace_Skipper", {}, "skipper")
     return res.finish()
 
 
@@ -659,6 +688,7 @@ def check_C17(tier, seed):
         p["nm"] = gv("nm-record", ["--seed", seed, "--n", 3000 if q else 150000, "--mode", "parse"], "Trace_Numbers", "nm")
         p["nw"] = gv("nm-record", ["--seed", seed, "--n", 3000 if q else 150000, "--mode", "write"], "Trace_Numbers", "nw")
         p["lz"] = gv("lz-record", ["--seed", seed, "--n", 1500 if q else 60000], "Trace_Lazy", "lz")
+        p["sk"] = gv("sk-record", ["--seed", seed, "--n", 1500 if q else 60000], "Trace_Skipper", "sk")
         pairs[v] = p
     tot = eq = 0
     for label, fa in pairs["native"].items():
